@@ -115,8 +115,9 @@ def run(ctx):
         for b in (False, True):
             sp = Spec(m, D, ps, {"self._trafo": t, fin: b}).run()
             div = b ^ (t >= 2)
-            vals = [src(e) for e, a, st in sp.returns]
-            want = f"Field(self._domain, {sn}.val / np.sqrt(self._ldiag))" if div else f"Field(self._domain, {sn}.val * np.sqrt(self._ldiag))"
+            from ..terms import canon
+            vals = [canon(e) for e, a, st in sp.returns]
+            want = canon(f"Field(self._domain, {sn}.val / np.sqrt(self._ldiag))" if div else f"Field(self._domain, {sn}.val * np.sqrt(self._ldiag))")
             ctx.check("R13.2", f"{ps.key}::stored trafo {t}, from_inverse={b}: {'divide' if div else 'multiply'} by sqrt(diag)",
                       vals == [want], str(vals), ps)
     for b in (False, True):
